@@ -153,7 +153,7 @@ def passphrase_case():
         from paramiko.ecdsakey import ECDSAKey
         cls = ctx.choice("key-class", ["RSAKey", "ECDSAKey"])
         via = ctx.choice("written-through", ["write_private_key(file object)", "write_private_key_file(path)"])
-        pw = ctx.choice("passphrase", [None, "pw", "pass phrase \u00e9", b"\x00p"])
+        pw = ctx.choice("passphrase", [None, "pw", "pass phrase \u00e9", b"\x00p", ""])
         rec = []
 
         class Lib:
@@ -168,14 +168,22 @@ def passphrase_case():
             key.signing_key = Lib()
         key.public_blob = None
         d = tempfile.mkdtemp(prefix="c36")
+        refused = False
         try:
             if via.startswith("write_private_key("):
                 key.write_private_key(io.StringIO(), password=pw)
             else:
                 key.write_private_key_file(os.path.join(d, "k"), password=pw)
+        except ValueError:
+            refused = True                  # the library refuses an empty passphrase
         finally:
             shutil.rmtree(d, ignore_errors=True)
-        ctx.prove(len(rec) == 1, "serialised-once")
+        if pw == "":
+            # an empty passphrase is still "a passphrase was asked for": refusing is fine, silently writing plain text is not
+            ctx.prove(refused or (len(rec) == 1 and not isinstance(rec[0][2], serialization.NoEncryption)),
+                      "empty-passphrase-is-refused-or-encrypts,never-written-in-the-clear")
+            return
+        ctx.prove(len(rec) == 1 and not refused, "serialised-once")
         algo = rec[0][2]
         if pw is None:
             ctx.prove(isinstance(algo, serialization.NoEncryption), "no-passphrase=>written-unencrypted")
@@ -186,7 +194,7 @@ def passphrase_case():
     return Case("passphrase-reaches-the-serialiser", fn, ["passphrase-given=>serialiser-encrypts-under-exactly-that-passphrase",
                                                           "no-passphrase=>written-unencrypted"],
                 {"key classes": ["RSAKey", "ECDSAKey"], "paths": ["write_private_key", "write_private_key_file"],
-                 "passphrases": [None, "pw", "non-ASCII text", "bytes"]})
+                 "passphrases": [None, "pw", "non-ASCII text", "bytes", "empty string"]})
 
 
 def cases(tier):
